@@ -225,6 +225,184 @@ def gen_symbols(rng, kind: Optional[str] = None, variant: Optional[str] = None) 
             "k": rng.choice([0.5, 2.0, -1.5]), "bindings": [list(x) for x in b]}
 
 
+# ----------------------------------------------------------------------------- deep static fields (unique=True)
+
+
+class _Act(nnx.Module):
+    """undecorated, weight-free sub-module with a static field"""
+
+    def __init__(self, slope, inner=None):
+        self.slope = float(slope)
+        self.inner = inner            # optional third level
+
+    def __call__(self, y):
+        y = jnp.where(y > 0, y, y * self.slope)
+        return self.inner(y) if self.inner is not None else y
+
+    def state(self, prefix):
+        out = [_lit_item(prefix + "slope", self.slope)]
+        if self.inner is not None:
+            out += self.inner.state(prefix + "inner.")
+        return out
+
+
+@onnx_function(unique=True)
+class DeepU(nnx.Module):
+    """decorated module whose only difference to a twin may sit in a NESTED static field"""
+
+    def __init__(self, w, slope, slope2=None, alpha=1.0):
+        self.w = nnx.Param(jnp.asarray(np.asarray(w, np.float32)))
+        self.alpha = float(alpha)
+        self.act = _Act(slope, _Act(slope2) if slope2 is not None else None)
+
+    def __call__(self, x):
+        return self.act(x * self.w[...] * self.alpha)
+
+    def _verif_state(self):
+        return [_arr_item("w", np.asarray(self.w[...])), _lit_item("alpha", self.alpha)] + self.act.state("act.")
+
+
+DEEP_VARIANTS = ["nested_static", "nested_nested_static", "equal", "weight", "root_static"]
+
+
+def gen_deep(rng, variant: Optional[str] = None) -> dict:
+    return {"pattern": "deep", "variant": variant or rng.choice(DEEP_VARIANTS), "w": rng.choice(W_CHOICES),
+            "slopes": rng.sample([0.5, 0.25, 2.0, -1.0], 2), "three_levels": rng.chance(0.5)}
+
+
+# ----------------------------------------------------------------------------- same display name, different targets
+
+
+@onnx_function(type="Block")
+def enc_block(x):
+    return x * 2.0 + 1.0
+
+
+@onnx_function(type="Block")
+def dec_block(x):
+    return x * 0.5 - 3.0
+
+
+@onnx_function(unique=True, type="UBlock")
+def enc_ublock(x):
+    return x * 4.0 + 2.0
+
+
+@onnx_function(unique=True, type="UBlock")
+def dec_ublock(x):
+    return x * 0.25 - 1.0
+
+
+def _mk_same_named(modname: str, k: float):
+    class Twin:
+        __module__ = modname
+
+        def __init__(self, w):
+            self.w = np.float32(w)
+
+        def __call__(self, x):
+            return x * self.w + np.float32(k)
+
+        def _verif_state(self):
+            return [_arr_item("w", self.w)]
+    return Twin
+
+
+TwinA = onnx_function(_mk_same_named(__name__ + ".pkga", 1.0))     # two classes with the same __name__
+TwinB = onnx_function(_mk_same_named(__name__ + ".pkgb", -2.0))    # in different modules
+
+NAME_VARIANTS = ["type_override_default", "type_override_unique", "same_class_name", "type_override_three"]
+
+
+def gen_names(rng, variant: Optional[str] = None) -> dict:
+    return {"pattern": "names", "variant": variant or rng.choice(NAME_VARIANTS), "swap": rng.chance(0.5)}
+
+
+# ----------------------------------------------------------------------------- several traced keywords / object-valued keywords
+
+
+@onnx_function
+def affine_d(x, scale=None, shift=None, extra=None):
+    y = x * scale + shift
+    return y if extra is None else y - extra * 2.0
+
+
+@onnx_function(unique=True)
+def affine_u(x, scale=None, shift=None, extra=None):
+    y = x * scale - shift
+    return y if extra is None else y + extra * 2.0
+
+
+@onnx_function
+class AffineD:
+    def __init__(self, w):
+        self.w = np.float32(w)
+
+    def __call__(self, x, scale=None, shift=None):
+        return x * scale * self.w + shift
+
+    def _verif_state(self):
+        return [_arr_item("w", self.w)]
+
+
+KWORDER_VARIANTS = ["swapped", "swapped_three", "same_order", "swapped_values_same_order"]
+
+
+def gen_kworder(rng, variant: Optional[str] = None) -> dict:
+    return {"pattern": "kworder", "kind": rng.choice(["affine_d", "affine_u", "AffineD"]),
+            "variant": variant or rng.choice(KWORDER_VARIANTS)}
+
+
+def act_neg(y):
+    return -y
+
+
+def act_dbl(y):
+    return y + y
+
+
+def act_sq(y):
+    return y * y
+
+
+class _ActObj:
+    """callable object: same Python type, different meaning"""
+
+    def __init__(self, k):
+        self.k = np.float32(k)
+
+    def __call__(self, y):
+        return y * self.k
+
+
+ACT_OBJS = {"neg": act_neg, "dbl": act_dbl, "sq": act_sq, "obj2": _ActObj(2.0), "obj3": _ActObj(-0.5)}
+
+
+@onnx_function
+def gated_d(x, act=None):
+    return act(x * 0.5) + 1.0
+
+
+@onnx_function
+class GatedD:
+    def __init__(self, w):
+        self.w = np.float32(w)
+
+    def __call__(self, x, act=None):
+        return act(x * self.w)
+
+    def _verif_state(self):
+        return [_arr_item("w", self.w)]
+
+
+OBJKW_VARIANTS = [("neg", "dbl"), ("obj2", "obj3"), ("dbl", "dbl"), ("sq", "neg"), ("obj2", "obj2")]
+
+
+def gen_objkw(rng, pair=None) -> dict:
+    a, b = pair or rng.choice(OBJKW_VARIANTS)
+    return {"pattern": "objkw", "kind": rng.choice(["gated_d", "GatedD"]), "acts": [a, b], "third": rng.chance(0.5)}
+
+
 # ----------------------------------------------------------------------------- nesting
 
 
@@ -351,15 +529,28 @@ def generate(rng, n: int) -> list[dict]:
               if not (k in FN_KINDS and d in ("identity", "weight", "static_alpha", "static_mode"))]
     combos = rng.shuffle(combos)
     sym_combos = rng.shuffle([(k, v) for k in GRID_KINDS for v in SYMBOL_VARIANTS])
+    extra = 0
     for i in range(n):
-        r = i % 5
-        if i % 6 == 5:
-            k, v = sym_combos[(i // 6) % len(sym_combos)]
+        r = i % 10
+        if r == 5:
+            k, v = sym_combos[(i // 10) % len(sym_combos)]
             out.append(gen_symbols(rng, k, v))
-        elif r == 4:
+        elif r in (4, 9):
             out.append(gen_nested(rng))
+        elif r in (2, 7):
+            # one of the four targeted patterns, variants in list order (the critical ones first)
+            which, rnd = extra % 4, extra // 4
+            extra += 1
+            if which == 0:
+                out.append(gen_deep(rng, DEEP_VARIANTS[rnd % len(DEEP_VARIANTS)]))
+            elif which == 1:
+                out.append(gen_names(rng, NAME_VARIANTS[rnd % len(NAME_VARIANTS)]))
+            elif which == 2:
+                out.append(gen_kworder(rng, KWORDER_VARIANTS[rnd % len(KWORDER_VARIANTS)]))
+            else:
+                out.append(gen_objkw(rng, OBJKW_VARIANTS[rnd % len(OBJKW_VARIANTS)]))
         else:
-            k, d = combos[(i - i // 5) % len(combos)]
+            k, d = combos[(i - (i // 10) * 5) % len(combos)]
             out.append(gen_pair(rng, k, d))
     return out
 
@@ -394,6 +585,14 @@ def build(desc: dict) -> Prog:
         _build_nested(p)
     elif desc["pattern"] == "symbols":
         _build_symbols(p)
+    elif desc["pattern"] == "deep":
+        _build_deep(p)
+    elif desc["pattern"] == "names":
+        _build_names(p)
+    elif desc["pattern"] == "kworder":
+        _build_kworder(p)
+    elif desc["pattern"] == "objkw":
+        _build_objkw(p)
     elif desc["pattern"] == "probe":
         _build_probe(p)
     else:
@@ -492,6 +691,102 @@ def _build_symbols(p: Prog) -> None:
     def fn(x, y, z):
         env = {"x": x, "y": y, "z": z}
         return tuple(call(env[a], env[b]) for a, b in sites)
+
+    p.fn = fn
+
+
+def _build_deep(p: Prog) -> None:
+    d = p.desc
+    s1, s2 = d["slopes"]
+    lvl3 = 0.5 if d["three_levels"] or d["variant"] == "nested_nested_static" else None
+    a = DeepU(d["w"], s1, lvl3)
+    v = d["variant"]
+    if v == "nested_static":
+        b = DeepU(d["w"], s2, lvl3)
+    elif v == "nested_nested_static":
+        b = DeepU(d["w"], s1, 0.25)
+    elif v == "equal":
+        b = DeepU(d["w"], s1, lvl3)
+    elif v == "weight":
+        b = DeepU([x + 0.5 for x in d["w"]], s1, lvl3)
+    else:
+        b = DeepU(d["w"], s1, lvl3, alpha=2.0)
+    p.keep += [a, b]
+    p.specs = [(2, 3)]
+    p.feeds = [_feed([2, 3], "float32", 6)]
+    p.fn = lambda x: (a(x), b(x), a(x + 1))
+
+
+def _build_names(p: Prog) -> None:
+    d = p.desc
+    import sys
+    mod = sys.modules[MY_MODULE]
+    v = d["variant"]
+    if v == "same_class_name":
+        ta, tb = TwinA(2.0), TwinB(2.0)
+        p.keep += [ta, tb]
+        calls = [ta, tb]
+    elif v == "type_override_unique":
+        calls = [lambda x: getattr(mod, "enc_ublock")(x), lambda x: getattr(mod, "dec_ublock")(x)]
+    else:
+        calls = [lambda x: getattr(mod, "enc_block")(x), lambda x: getattr(mod, "dec_block")(x)]
+    if d.get("swap"):
+        calls = calls[::-1]
+    if v == "type_override_three":
+        calls = calls + [calls[0]]
+    p.specs = [(2, 3)]
+    p.feeds = [_feed([2, 3], "float32", 7)]
+    p.fn = lambda x: tuple(c(x + i) for i, c in enumerate(calls))
+
+
+def _build_kworder(p: Prog) -> None:
+    d = p.desc
+    import sys
+    mod = sys.modules[MY_MODULE]
+    if d["kind"] == "AffineD":
+        blk = AffineD(2.0)
+        p.keep.append(blk)
+        call = blk
+    else:
+        name = d["kind"]
+        call = lambda x, **kw: getattr(mod, name)(x, **kw)   # noqa: E731
+    v = d["variant"]
+    three = v == "swapped_three" and d["kind"] != "AffineD"
+    p.specs = [(2, 3), (3,), (3,), (3,)]
+    p.feeds = [_feed([2, 3], "float32", 1), _feed([3], "float32", 2), _feed([3], "float32", 5), _feed([3], "float32", 8)]
+
+    def fn(x, s, t, u):
+        s, t, u = s * 1.0, t * 1.0, u * 1.0          # traced values, not graph inputs themselves
+        if v == "same_order":
+            return call(x, scale=s, shift=t), call(x + 1, scale=s, shift=t)
+        if v == "swapped_values_same_order":
+            return call(x, scale=s, shift=t), call(x + 1, scale=t, shift=s)
+        if three:
+            return call(x, scale=s, shift=t, extra=u), call(x + 1, extra=s, shift=t, scale=u)
+        return call(x, scale=s, shift=t), call(x + 1, shift=s, scale=t)
+
+    p.fn = fn
+
+
+def _build_objkw(p: Prog) -> None:
+    d = p.desc
+    import sys
+    mod = sys.modules[MY_MODULE]
+    if d["kind"] == "GatedD":
+        blk = GatedD(2.0)
+        p.keep.append(blk)
+        call = blk
+    else:
+        call = lambda x, **kw: getattr(mod, "gated_d")(x, **kw)   # noqa: E731
+    a, b = (ACT_OBJS[k] for k in d["acts"])
+    p.specs = [(2, 3)]
+    p.feeds = [_feed([2, 3], "float32", 3)]
+
+    def fn(x):
+        outs = [call(x, act=a), call(x, act=b)]
+        if d.get("third"):
+            outs.append(call(x, act=a))
+        return tuple(outs)
 
     p.fn = fn
 
